@@ -103,6 +103,51 @@ theorem bloomFooter_spec (est fpr32 : Nat) (cnt : Int) :
     repeat' split
     all_goals first | rfl | (exfalso; apply h; omega)
 
+theorem bloomFooterHex_spec (est fpr32 : Nat) (cnt : Int) :
+    Gen.bloomFooterHex.pack [(est : Int), cnt, (fpr32 : Int)] =
+      if est < 2 ^ 64 ∧ 0 ≤ cnt ∧ cnt < 2 ^ 64 ∧ fpr32 < 2 ^ 32
+      then .ok ((Spec.u64le est).reverse ++ (Spec.u64le cnt.toNat).reverse ++ (Spec.u32le fpr32).reverse)
+      else .error .structError := by
+  rw [bloomFooterHex_pack]
+  by_cases h : est < 2 ^ 64 ∧ 0 ≤ cnt ∧ cnt < 2 ^ 64 ∧ fpr32 < 2 ^ 32
+  · obtain ⟨h1, h2, h3, h4⟩ := h
+    rw [if_neg (by omega), if_neg (by omega), if_neg (by omega), if_pos ⟨h1, h2, h3, h4⟩]
+    rw [leBytesInt8_nat (by omega) (by omega), leBytesInt8_nat h2 (by omega), leBytesInt4_nat (by omega) (by omega)]
+    simp
+  · rw [if_neg h]
+    repeat' split
+    all_goals first | rfl | (exfalso; apply h; omega)
+
+theorem cmsFooter_spec (w d : Nat) (t : Int) :
+    Gen.cmsFooter.pack [(w : Int), (d : Int), t] =
+      if w < 2 ^ 32 ∧ d < 2 ^ 32 ∧ -9223372036854775808 ≤ t ∧ t ≤ 9223372036854775807
+      then .ok (Spec.cmsFooter w d t) else .error .structError := by
+  rw [cmsFooter_pack]
+  by_cases h : w < 2 ^ 32 ∧ d < 2 ^ 32 ∧ -9223372036854775808 ≤ t ∧ t ≤ 9223372036854775807
+  · obtain ⟨h1, h2, h3, h4⟩ := h
+    rw [if_neg (by omega), if_neg (by omega), if_neg (by omega), if_pos ⟨h1, h2, h3, h4⟩]
+    rw [leBytesInt4_nat (by omega) (by omega), leBytesInt4_nat (by omega) (by omega), leBytesInt8_int h3 h4]
+    simp [Spec.cmsFooter]
+  · rw [if_neg h]
+    repeat' split
+    all_goals first | rfl | (exfalso; apply h; omega)
+
+theorem expFooter_spec (n est fpr32 : Nat) (added : Int) :
+    Gen.expFooter.pack [(n : Int), (est : Int), added, (fpr32 : Int)] =
+      if n < 2 ^ 64 ∧ est < 2 ^ 64 ∧ 0 ≤ added ∧ added < 2 ^ 64 ∧ fpr32 < 2 ^ 32
+      then .ok (Spec.u64le n ++ Spec.u64le est ++ Spec.u64le added.toNat ++ Spec.u32le fpr32)
+      else .error .structError := by
+  rw [expFooter_pack]
+  by_cases h : n < 2 ^ 64 ∧ est < 2 ^ 64 ∧ 0 ≤ added ∧ added < 2 ^ 64 ∧ fpr32 < 2 ^ 32
+  · obtain ⟨h1, h2, h3, h4, h5⟩ := h
+    rw [if_neg (by omega), if_neg (by omega), if_neg (by omega), if_neg (by omega), if_pos ⟨h1, h2, h3, h4, h5⟩]
+    rw [leBytesInt8_nat (by omega) (by omega), leBytesInt8_nat (by omega) (by omega),
+      leBytesInt8_nat h3 (by omega), leBytesInt4_nat (by omega) (by omega)]
+    simp
+  · rw [if_neg h]
+    repeat' split
+    all_goals first | rfl | (exfalso; apply h; omega)
+
 theorem flatMap_congr' {α β} {l : List α} {f g : α → List β} (h : ∀ a ∈ l, f a = g a) :
     l.flatMap f = l.flatMap g := by
   simp only [List.flatMap_def, List.map_congr_left h]
